@@ -603,6 +603,9 @@ def crash_key(rc, err):
         break
     if rc == 124:
         return "timeout"
+    ma = re.search(r"Assertion failed at [^\n]*?([\w.]+):\d+ inside (\w+)", err)
+    if ma:
+        return "abort:assert:%s:%s" % (ma.group(1), ma.group(2))
     if kind is None and fn is None:
         return "died:rc=%d" % rc
     return "san:%s:%s" % (kind or "abort", fn or "?")
